@@ -30,14 +30,16 @@ impl Monitor for C05 {
             }
             Op::Unbond { tok: Tok::B, amount, user, .. } => {
                 // claim credited to the cw20 sender in the batch that was open before the step
-                let before: u128 = pre.requests.get(user).map(|r| r.iter().filter(|x| x.0 == pre.batch_id).map(|x| x.1).sum()).unwrap_or(0);
-                let after: u128 = post.requests.get(user).map(|r| r.iter().filter(|x| x.0 == pre.batch_id).map(|x| x.1).sum()).unwrap_or(0);
-                ("unbond", *amount, *amount, after - before)
+                // (or, when the hub closes an overdue batch first, in the batch open after the step: all batches summed)
+                let before: u128 = pre.requests.get(user).map(|r| r.iter().map(|x| x.1).sum()).unwrap_or(0);
+                let after: u128 = post.requests.get(user).map(|r| r.iter().map(|x| x.1).sum()).unwrap_or(0);
+                ("unbond", *amount, *amount, after.saturating_sub(before))
             }
             Op::Convert { tok: Tok::B, amount, .. } => {
                 // fee is taken on the burnt bSei; observable as the coin value moved between the pools
                 let nofee_equiv = mul_rate(*amount, pre.rb);
-                let equiv = pre.pool_b.saturating_sub(post.raw_pool_b);
+                let (cb, _) = crate::monitors::c03::closed_in_step(pre, post);
+                let equiv = pre.pool_b.saturating_sub(post.raw_pool_b + cb);
                 ("convert_bsei_stsei", *amount, nofee_equiv, equiv)
             }
             _ => return,
